@@ -93,6 +93,12 @@ var c12classes = []c12class{
 	{"two-value-lookup-key-of-wrong-kind", `{{ v, ok := zq_mi["a"] }}`, true, false},
 	{"two-value-lookup-on-int", `{{ _, ok := zq_i[0] }}`, true, false},
 	{"two-value-assign-index-out-of-range", `{{ v := 1 }}{{ ok := 1 }}{{ v, ok = zq_xs[7] }}`, true, false},
+	{"piped-into-function-without-parameters", `{{ "x" | zq_now }}`, true, false},
+	{"argument-to-function-without-parameters", `{{ zq_now(1) }}`, true, false},
+	{"piped-with-arguments-into-function-without-parameters", `{{ "x" | zq_now: 2 }}`, true, false},
+	{"field-below-absent-map-entry", `{{ zq_users.bob.A }}`, true, false},
+	{"field-below-absent-map-entry-deeper", `{{ zq_cfg.db.missing.host.port }}`, true, false},
+	{"field-below-absent-map-entry-in-expression", `{{ "x" + zq_users.bob.A }}`, true, false},
 	{"index-nil-on-map", `{{ zq_mi[nil] }}`, true, false},
 	{"index-nil-on-string-map-two-value", `{{ v, ok := zq_many[nil] }}`, true, false},
 	{"call-nil-value-with-arguments", `{{ zq_msi.absent(1) }}`, true, false},
@@ -173,6 +179,10 @@ func c12extra() map[string]interface{} {
 		"zq_stringer": func(s fmt.Stringer) string { return s.String() },
 		"zq_join":     func(sep string, parts ...string) string { return strings.Join(parts, sep) },
 		"zq_cat":      func(parts ...string) string { return strings.Join(parts, "") },
+		"zq_msi":      map[string]int{"a": 1},
+		"zq_now":      func() string { return "now" },
+		"zq_users":    map[string]c12struct{"alice": {A: "a"}},
+		"zq_cfg":      map[string]interface{}{"db": map[string]interface{}{"host": "h"}},
 		"zq_u":        uint(5), "zq_u8": uint8(9), "zq_f": 2.5,
 		"zq_failwrap": func() string { panic(fmt.Errorf("zq_failwrap: lookup failed: %w", c12runtimeError())) },
 		"zq_jfwrap": jet.Func(func(a jet.Arguments) reflect.Value {
@@ -287,6 +297,11 @@ func c12run(c *fw.Ctx, idx int) {
 	}
 	if m.Err == nil {
 		c.Count("failing_action_not_reached", 1)
+		return
+	}
+	if msg := o.Err.Error(); strings.Contains(msg, `identifier "zq_`) && !strings.Contains(cl.Src, "zq_nosuch") && !strings.Contains(cl.Src, "zq_undeclared") {
+		// the class is not exercising what it names: a variable it relies on is not supplied by c12extra
+		c.Violation("c12:harness:class-variable-missing:"+cl.Name, "", msg)
 		return
 	}
 	c.Count("failures_observed", 1)
